@@ -29,290 +29,7 @@ if os.environ.get("VERIF_PROPS"):
   ready = [p for p in ready if p in os.environ["VERIF_PROPS"].split()]
 
 
-def _nested_scopes(fnode):
-  out = []
-  for s in fnode.body:
-    for n in ast.walk(s):
-      if isinstance(n, (ast.FunctionDef, ast.AsyncFunctionDef, ast.Lambda, ast.ClassDef)):
-        out.append(n)
-  return out
-
-
-def _own_nodes(fnode):
-  """Nodes of the function body that are not inside a nested def/lambda/class."""
-  out = []
-  def go(n):
-    for c in ast.iter_child_nodes(n):
-      if isinstance(c, (ast.FunctionDef, ast.AsyncFunctionDef, ast.Lambda, ast.ClassDef)):
-        # decorators / defaults are evaluated in the enclosing scope, but keep it simple: skip
-        continue
-      out.append(c)
-      go(c)
-  for s in fnode.body:
-    out.append(s)
-    go(s)
-  return out
-
-
-class T1(ast.NodeTransformer):
-  def _do(self, f):
-    self.generic_visit(f)
-    own = _own_nodes(f)
-    params = {a.arg for a in ast.walk(f.args) if isinstance(a, ast.arg)}
-    declared = set()
-    for n in own:
-      if isinstance(n, (ast.Global, ast.Nonlocal)):
-        declared |= set(n.names)
-      if isinstance(n, ast.Call) and isinstance(n.func, ast.Name) and n.func.id in ("locals", "vars", "eval", "exec"):
-        return f
-    stored = {n.id for n in own if isinstance(n, ast.Name) and isinstance(n.ctx, (ast.Store, ast.Del))}
-    stored |= {n.name for n in own if isinstance(n, ast.ExceptHandler) and n.name}
-    captured = set()
-    for sc in _nested_scopes(f):
-      captured |= {n.id for n in ast.walk(sc) if isinstance(n, ast.Name)}
-      if not isinstance(sc, ast.Lambda):
-        captured.add(sc.name)
-    # names of nested defs are locals too but renaming them changes qualnames: leave them
-    nested_names = {n.name for n in own if isinstance(n, (ast.FunctionDef, ast.ClassDef))}
-    ren = {x for x in stored - params - declared - captured - nested_names if not x.startswith("__")}
-    for n in own:
-      if isinstance(n, ast.Name) and n.id in ren:
-        n.id = n.id + "_r"
-      elif isinstance(n, ast.ExceptHandler) and n.name in ren:
-        n.name = n.name + "_r"
-    return f
-  visit_FunctionDef = _do
-  visit_AsyncFunctionDef = _do
-
-
-def _neg(t):
-  if isinstance(t, ast.UnaryOp) and isinstance(t.op, ast.Not):
-    return t.operand
-  return ast.UnaryOp(op=ast.Not(), operand=t)
-
-
-class T2(ast.NodeTransformer):
-  def visit_If(self, n):
-    self.generic_visit(n)
-    if n.orelse:
-      n.test, n.body, n.orelse = _neg(n.test), n.orelse, n.body
-    return n
-
-
-class T3(ast.NodeTransformer):
-  def _tail(self, body, exit_stmt):
-    if body and isinstance(body[-1], ast.If) and not body[-1].orelse:
-      last = body[-1]
-      guard = ast.If(test=_neg(last.test), body=[exit_stmt], orelse=[])
-      return body[:-1] + [guard] + last.body
-    return body
-  def visit_FunctionDef(self, f):
-    self.generic_visit(f)
-    f.body = self._tail(f.body, ast.Return(value=None))
-    return f
-  def visit_For(self, n):
-    self.generic_visit(n)
-    n.body = self._tail(n.body, ast.Continue())
-    return n
-  visit_While = visit_For
-
-
-class T4(ast.NodeTransformer):
-  def visit_Lambda(self, n):
-    return n
-  def _block(self, stmts):
-    out = []
-    for s in stmts:
-      if isinstance(s, ast.Return) and s.value is not None and \
-          not isinstance(s.value, (ast.Name, ast.Constant)):
-        out.append(ast.Assign(targets=[ast.Name(id="ret_value", ctx=ast.Store())], value=s.value))
-        out.append(ast.Return(value=ast.Name(id="ret_value", ctx=ast.Load())))
-      else:
-        out.append(s)
-    return out
-  def generic_visit(self, node):
-    super().generic_visit(node)
-    for fld in ("body", "orelse", "finalbody"):
-      v = getattr(node, fld, None)
-      if isinstance(v, list) and v and isinstance(v[0], ast.stmt):
-        setattr(node, fld, self._block(v))
-    return node
-  def visit_FunctionDef(self, f):
-    # generators: `return x` is fine too; functions using ret_value already: skip
-    if any(isinstance(n, ast.Name) and n.id == "ret_value" for n in ast.walk(f)):
-      return f
-    return self.generic_visit(f)
-
-
-class T5(ast.NodeTransformer):
-  def visit_Lambda(self, n):
-    return n
-  def _block(self, stmts):
-    out = []
-    for s in stmts:
-      if isinstance(s, ast.Assign) and isinstance(s.value, ast.IfExp) and len(s.targets) == 1 and \
-          isinstance(s.targets[0], ast.Name):
-        v = s.value
-        out.append(ast.If(test=v.test,
-                          body=[ast.Assign(targets=[copy.deepcopy(s.targets[0])], value=v.body)],
-                          orelse=[ast.Assign(targets=[copy.deepcopy(s.targets[0])], value=v.orelse)]))
-      elif isinstance(s, ast.Return) and isinstance(s.value, ast.IfExp):
-        v = s.value
-        out.append(ast.If(test=v.test, body=[ast.Return(value=v.body)], orelse=[]))
-        out.append(ast.Return(value=v.orelse))
-      else:
-        out.append(s)
-    return out
-  def generic_visit(self, node):
-    super().generic_visit(node)
-    for fld in ("body", "orelse", "finalbody"):
-      v = getattr(node, fld, None)
-      if isinstance(v, list) and v and isinstance(v[0], ast.stmt):
-        setattr(node, fld, self._block(v))
-    return node
-
-
-class T6(ast.NodeTransformer):
-  """`x = [E for t in IT if C]` (also set/dict comprehensions, one generator) -> explicit loop."""
-  def visit_Lambda(self, n):
-    return n
-  def _do(self, f):
-    self.generic_visit(f)
-    names_outside = {}
-    comps = [n for n in ast.walk(f) if isinstance(n, (ast.ListComp, ast.SetComp, ast.DictComp, ast.GeneratorExp))]
-    inside = {id(x) for c in comps for x in ast.walk(c)}
-    outside = {n.id for n in ast.walk(f) if isinstance(n, ast.Name) and id(n) not in inside}
-    outside |= {a.arg for a in ast.walk(f.args) if isinstance(a, ast.arg)}
-    def block(stmts):
-      out = []
-      for s in stmts:
-        v = s.value if isinstance(s, ast.Assign) else None
-        if v is not None and isinstance(v, (ast.ListComp, ast.SetComp, ast.DictComp)) and \
-            len(s.targets) == 1 and isinstance(s.targets[0], ast.Name) and len(v.generators) == 1 and \
-            not v.generators[0].is_async:
-          g = v.generators[0]
-          tnames = {n.id for n in ast.walk(g.target) if isinstance(n, ast.Name)}
-          used_in_comp = {n.id for n in ast.walk(v) if isinstance(n, ast.Name)}
-          nested = any(isinstance(x, (ast.ListComp, ast.SetComp, ast.DictComp, ast.GeneratorExp, ast.Lambda))
-                       for x in ast.walk(v) if x is not v)
-          tgt = s.targets[0].id
-          if not (tnames & outside) and tgt not in used_in_comp and not nested:
-            acc = ast.Name(id=tgt, ctx=ast.Load())
-            if isinstance(v, ast.ListComp):
-              init, add = ast.List(elts=[], ctx=ast.Load()), ast.Expr(ast.Call(
-                func=ast.Attribute(value=acc, attr="append", ctx=ast.Load()), args=[v.elt], keywords=[]))
-            elif isinstance(v, ast.SetComp):
-              init, add = ast.Call(func=ast.Name(id="set", ctx=ast.Load()), args=[], keywords=[]), ast.Expr(ast.Call(
-                func=ast.Attribute(value=acc, attr="add", ctx=ast.Load()), args=[v.elt], keywords=[]))
-            else:
-              init = ast.Dict(keys=[], values=[])
-              # key is evaluated before the value in a dict comprehension: keep that order
-              add = [ast.Assign(targets=[ast.Name(id="comp_key", ctx=ast.Store())], value=v.key),
-                     ast.Assign(targets=[ast.Subscript(value=acc, slice=ast.Name(id="comp_key", ctx=ast.Load()),
-                                                       ctx=ast.Store())], value=v.value)]
-              if "comp_key" in outside or "comp_key" in used_in_comp:
-                out.append(s); continue
-            body = add if isinstance(add, list) else [add]
-            for c in reversed(g.ifs):
-              body = [ast.If(test=c, body=body, orelse=[])]
-            out.append(ast.Assign(targets=[ast.Name(id=tgt, ctx=ast.Store())], value=init))
-            out.append(ast.For(target=g.target, iter=g.iter, body=body, orelse=[]))
-            continue
-        for fld in ("body", "orelse", "finalbody"):
-          b = getattr(s, fld, None)
-          if isinstance(b, list) and b and isinstance(b[0], ast.stmt) and \
-              not isinstance(s, (ast.FunctionDef, ast.AsyncFunctionDef, ast.ClassDef)):
-            setattr(s, fld, block(b))
-        if isinstance(s, ast.Try):
-          for h in s.handlers:
-            h.body = block(h.body)
-        out.append(s)
-      return out
-    f.body = block(f.body)
-    return f
-  visit_FunctionDef = _do
-
-
-class T7(ast.NodeTransformer):
-  """alias `self._engine` / `self._docmodel` to a local at the top of methods that read it (these
-  attributes are assigned once in __init__ and never rebound)."""
-  ATTRS = ("_engine", "_docmodel")
-  def __init__(self):
-    self.rebound = set()
-  def visit_Module(self, m):
-    for n in ast.walk(m):
-      if isinstance(n, ast.FunctionDef) and n.name != "__init__":
-        for x in ast.walk(n):
-          if isinstance(x, ast.Attribute) and isinstance(x.ctx, (ast.Store, ast.Del)) and x.attr in self.ATTRS:
-            self.rebound.add(x.attr)
-    return self.generic_visit(m)
-  def visit_Lambda(self, n):
-    return n
-  def visit_FunctionDef(self, f):
-    if f.name == "__init__" or not f.args.args or f.args.args[0].arg != "self":
-      return f
-    own = _own_nodes(f)
-    for a in self.ATTRS:
-      if a in self.rebound:
-        continue
-      alias = a.lstrip("_") + "_alias"
-      hits = [n for n in own if isinstance(n, ast.Attribute) and n.attr == a and isinstance(n.ctx, ast.Load)
-              and isinstance(n.value, ast.Name) and n.value.id == "self"]
-      if not hits or any(isinstance(n, ast.Name) and n.id == alias for n in ast.walk(f)):
-        continue
-      # `self` must not be rebound, and the read must not be able to fail differently: these
-      # attributes always exist after __init__
-      if any(isinstance(n, ast.Name) and n.id == "self" and isinstance(n.ctx, ast.Store) for n in own):
-        continue
-      class R(ast.NodeTransformer):
-        def visit_FunctionDef(s, n): return n
-        def visit_Lambda(s, n): return n
-        def visit_ClassDef(s, n): return n
-        def visit_Attribute(s, n):
-          s.generic_visit(n)
-          if n.attr == a and isinstance(n.ctx, ast.Load) and isinstance(n.value, ast.Name) and n.value.id == "self":
-            return ast.Name(id=alias, ctx=ast.Load())
-          return n
-      r = R()
-      f.body = [r.visit(s) if not isinstance(s, (ast.FunctionDef, ast.ClassDef)) else s for s in f.body]
-      doc = f.body[:1] if f.body and isinstance(f.body[0], ast.Expr) and isinstance(f.body[0].value, ast.Constant) \
-          and isinstance(f.body[0].value.value, str) else []
-      rest = f.body[len(doc):]
-      f.body = doc + [ast.Assign(targets=[ast.Name(id=alias, ctx=ast.Store())],
-                                 value=ast.Attribute(value=ast.Name(id="self", ctx=ast.Load()), attr=a, ctx=ast.Load()))] + rest
-    return f
-
-
-class T0(ast.NodeTransformer):
-  pass
-
-
-TRANSFORMS = {"T0": T0, "T1": T1, "T2": T2, "T3": T3, "T4": T4, "T5": T5, "T6": T6, "T7": T7}
-
-
-def target_files(root, sub):
-  base = os.path.join(root, "sandbox/grist")
-  out = []
-  for dp, dn, fn in os.walk(base):
-    for f in fn:
-      p = os.path.join(dp, f)
-      rel = os.path.relpath(p, root)
-      if not f.endswith(".py") or f.startswith("test_") or "/tests/" in rel or f.startswith("testutil"):
-        continue
-      if sub and not any(x in rel for x in sub):
-        continue
-      out.append(rel)
-  return sorted(out)
-
-
-def rewrite(path, tname):
-  src = open(path).read()
-  tree = ast.parse(src)
-  new = TRANSFORMS[tname]().visit(tree)
-  ast.fix_missing_locations(new)
-  out = ast.unparse(new) + "\n"
-  compile(out, path, "exec")
-  open(path, "w").write(out)
+from sa.refactor import TRANSFORMS, target_files, rewrite
 
 
 def one(job):
